@@ -384,6 +384,11 @@ func (m Message) ErrorMessage() string {
 }
 
 func (m Message) Data() plugintypes.AuditLogMessageData {
+	if m.Data_ == nil {
+		// Messages logged without part K carry no rule details: hand out an empty
+		// value rather than a nil pointer the formatters would dereference.
+		return &MessageData{}
+	}
 	return m.Data_
 }
 
